@@ -72,6 +72,17 @@ def handle : Handler := fun cmd j =>
     let mk ← getStrs j "mkdirs"
     let cs ← getStrs j "chunks"
     pure (Json.arr ((storeOps pid cpv gid (mk.map String.toList) (cs.map String.toList)).map Pkgcore.Driver.C24.ofOp).toArray)
+  | "c27.failops" => do
+    -- what a failing store does: the first k operations before the rename, optionally the removal of the temp file
+    let pid ← chars j "pid"
+    let cpv ← chars j "cpv"
+    let gid ← getInt j "gid"
+    let mk ← getStrs j "mkdirs"
+    let cs ← getStrs j "chunks"
+    let k ← getNat j "k"
+    let cl ← getBool j "cleanup"
+    pure (Json.arr ((failedStoreOps pid cpv gid (mk.map String.toList) (cs.map String.toList) k cl).map
+      Pkgcore.Driver.C24.ofOp).toArray)
   | "c27.crash" => do
     -- cache directory after the first k operations of a store
     let k ← parseKind j
